@@ -646,6 +646,13 @@ pub fn spec() -> PropSpec {
       min_counts: &[("cross_grouped", 200), ("cross_recovered", 200), ("calls_in_a_row", 900)],
     },
     Check {
+      name: "cross-process",
+      rule: "clients and the grouping side are separate PROCESSES: a fresh client process creates two shares through the string API; three fresh consumer processes whose FIRST operations are recoveries (grouping first / adss recovery first / aggregation first) call group_shares on them: the clients' key, in every order (a lazily initialised static keyed by whatever the process did first shows here and nowhere inside one process)",
+      gen: |_| vec![json!({})],
+      run: |cx, _| crate::probe::cross_process_check(cx, "C17", "grouped"),
+      min_counts: &[("cross_process_ok", 3)],
+    },
+    Check {
       name: "call-history",
       rule: "t in 1..4: a call holding k valid shares followed by a malformed line (4 kinds, incl. a trailing newline) is rejected; the NEXT call with t-1 shares must yield nothing and a complete grouping of another measurement must yield that measurement's key (nothing survives a rejected call); t shares created at scripted evaluation points 2^128+5, p-1, 2^128, 5 group to the clients' key",
       gen: |_| (1..=4u64).map(|t| json!({"t": t})).collect(),
